@@ -560,6 +560,27 @@ pub fn inputs_c17(r: &mut Rng, n: usize, _tier: &str, out: &mut dyn Write) {
             }
         }
     }
+    // negation block: the epochs at which a duration-valued view is the exact NEGATION of the epoch's own count (only
+    // possible for the views whose origin lies within two centuries of the scale's zero), +/- 1 ns
+    if n >= 5000 {
+        for name in ["to_mjd_tt_duration", "to_tt_since_j2k"] {
+            for ts in NONDYN {
+                let mut e = s2e(&format!("0:0:{}", ts));
+                for _ in 0..4 {
+                    let got = match acc17_call(name, &e) { Some(d) => d.total_nanoseconds(), None => break };
+                    let own = e.duration.total_nanoseconds();
+                    e = e - Duration::from_total_nanoseconds((got + own) / 2);
+                }
+                let base = e.duration.total_nanoseconds();
+                for dt in [-1i128, 0, 1] {
+                    let es = format!("{}:{}", dstr(base + dt), ts);
+                    writeln!(out, "acc17 {} {}", name, es).unwrap();
+                    writeln!(out, "accf {} {}", if name == "to_mjd_tt_duration" { "to_mjd_tt_days" } else { "to_tt_centuries_j2k" }, es).unwrap();
+                    n = n.saturating_sub(2);
+                }
+            }
+        }
+    }
     // word-size block: every view at the epochs whose count (from the scale's own zero, from 1900 TAI, from the MJD and
     // UNIX origins) sits on 2^63 / 2^64 ns, 2^31 / 2^32 s or 2^15 / 2^16 days, +/- 1 ns
     if n >= 5000 {
